@@ -125,7 +125,7 @@ def gen_case(rng, prop, tier):
 
 
 def gen(rng, tier):
-    n = 260 if tier == "quick" else 4000
+    n = 200 if tier == "quick" else 4000
     for _ in range(n):
         yield gen_case(rng, 1, tier)
 
